@@ -37,12 +37,29 @@ def covs():
             np.array([[4.0, 1.0, 1.0], [1.0, 3.0, 0.5], [1.0, 0.5, 2.0]])]
 
 
-def make_model(labels, thetas, Ss, K, eps=0):
+# the definition mentions labels, MRFs and covariances only: the options the run was configured with may not matter
+ARG_VARIANTS = ("plain", "beta_zero_even", "beta_zero_odd", "beta_0", "biased_matrix", "window3")
+
+
+def make_model(labels, thetas, Ss, K, eps=0, variant="plain"):
     from fast_ticc.containers import arguments, model_state
     n = thetas[0].shape[0]
-    a = arguments.UserArguments(sparsity_weight=0.1, iteration_limit=1, label_switching_cost=1.0,
-                                min_cluster_size=1, min_meaningful_covariance=eps, num_clusters=K,
-                                num_processors=1, window_size=1, biased_covariance=False)
+    kw = dict(sparsity_weight=0.1, iteration_limit=1, label_switching_cost=1.0,
+              min_cluster_size=1, min_meaningful_covariance=eps, num_clusters=K,
+              num_processors=1, window_size=1, biased_covariance=False)
+    T = len(labels)
+    if variant == "beta_zero_even":        # a per-pair cost with exact zeros (what a joint run's mask produces)
+        kw["label_switching_cost"] = np.array([0.0 if i % 2 == 0 else 2.0 for i in range(T)])
+    elif variant == "beta_zero_odd":
+        kw["label_switching_cost"] = np.array([0.0 if i % 2 == 1 else 2.0 for i in range(T)])
+    elif variant == "beta_0":
+        kw["label_switching_cost"] = 0.0
+    elif variant == "biased_matrix":
+        kw["biased_covariance"] = True
+        kw["sparsity_weight"] = np.full((n, n), 0.1)
+    elif variant == "window3" and n % 3 == 0:
+        kw["window_size"] = 3
+    a = arguments.UserArguments(**kw)
     m = model_state.ModelState.empty_model(a, np.zeros((len(labels), n)))
     m.point_labels = list(labels)
     for c, th, S in zip(m.clusters, thetas, Ss):
@@ -52,9 +69,9 @@ def make_model(labels, thetas, Ss, K, eps=0):
     return m
 
 
-def judge(labels, thetas, Ss, K, eps=0):
+def judge(labels, thetas, Ss, K, eps=0, variant="plain"):
     from fast_ticc import cluster_metrics
-    m = make_model(labels, thetas, Ss, K, eps)
+    m = make_model(labels, thetas, Ss, K, eps, variant)
     got = float(cluster_metrics.bayesian_information_criterion(m))
     want, scale = refs.bic(labels, thetas, Ss)
     if not np.isfinite(got):
@@ -76,13 +93,16 @@ def work_labels(task):
             break
         # rotate through the threshold family so that every theta is used
         thetas = [ths[(si * 7 + 13 * k) % len(ths)] for k in range(K)]
-        acc.n += 1
-        msg = judge(labels, thetas, Ss[:K], K)
         runs = 1 + sum(1 for i in range(1, T) if labels[i] != labels[i - 1])
-        if runs > 1 and len(set(labels)) < K or runs > len(set(labels)):
-            acc.nontrivial += 1
-        if msg:
-            acc.fail({"kind": "labels", "K": K, "labels": list(labels), "theta_idx": [(si * 7 + 13 * k) % len(ths) for k in range(K)]}, msg)
+        for variant in ("plain", "beta_zero_even", "beta_zero_odd", ARG_VARIANTS[3 + si % 3]):
+            acc.n += 1
+            msg = judge(labels, thetas, Ss[:K], K, 0, variant)
+            if runs > 1 and len(set(labels)) < K or runs > len(set(labels)):
+                acc.nontrivial += 1
+            if msg:
+                acc.fail({"kind": "labels", "K": K, "labels": list(labels), "variant": variant,
+                          "theta_idx": [(si * 7 + 13 * k) % len(ths) for k in range(K)]},
+                         (f"with the '{variant}' options in the arguments: " if variant != "plain" else "") + msg)
     acc.sample({"kind": "labels", "K": K, "T": T})
     return acc.result()
 
@@ -146,7 +166,7 @@ def run(ctx):
     for r in ctx.pmap(work_scale, [(n,) for n in ((5, 50, 100, 200) if ctx.thorough else (5, 50, 100))]):
         ctx.take(r)
     L = 20
-    menu = [("k2a", [L], 1), ("k2m1", [L], 0), ("k2big", [1, L], 0)]
+    menu = [("k2a", [L], 1), ("k2m1", [L], 0), ("k2big", [1, L], 0), ("k2vec", [L], 0)]
     if ctx.thorough:
         menu += [("k2b", [L], 1), ("k3a", [L], 1), ("k2mat", [L], 0), ("k2eps", [L], 0)]
     ps = ml.e2_plans(ctx, menu, MONS, conform=False)
@@ -160,7 +180,9 @@ def run(ctx):
     ctx.cov["rule"] = (
         "(a) every label sequence of length 1..8 over K in {1,2,3} (9840 sequences; unused clusters, single runs, "
         "many runs) with 3x3 MRFs from a family whose off-diagonal magnitudes are {0,1e-5,2e-5,nextafter(2e-5),3e-5} "
-        "with both signs (343 matrices, each also checked on 4 fixed sequences); scale family NW in {5,50,100} with "
+        "with both signs (343 matrices, each also checked on 4 fixed sequences); every sequence with the run's options "
+        "plain, with a per-pair switching cost holding exact zeros at the even / odd pairs, and one of {beta 0, biased + "
+        "matrix weight, window 3} (the definition mentions none of them); scale family NW in {5,50,100} with "
         "log det in {-3000..3000}; oracle P ln T - 2 sum_k(ln det - tr(Theta S)) with Cholesky log-determinant and an "
         "explicit run-length scan, tolerance 1e-10 x sum|terms|, must be finite. (b) every enumerated main-loop run: "
         "reported BIC vs recomputation from the final model state. non-trivial = sequences where some cluster "
@@ -183,7 +205,7 @@ def replay(ctx, case):
     if k == "labels":
         ths = small_thetas()
         K = case["K"]
-        msg = judge(tuple(case["labels"]), [ths[i] for i in case["theta_idx"]], covs()[:K], K)
+        msg = judge(tuple(case["labels"]), [ths[i] for i in case["theta_idx"]], covs()[:K], K, 0, case.get("variant", "plain"))
         ctx.cov["evaluations"] = 1
         if msg:
             ctx.violation(case, msg)
